@@ -45,6 +45,9 @@ CLAIMS = {
     "C11": dict(cat="other", ref="DESIGN.md 5/C11",
         text="partial: per-call contracts of the real duty-cycle wrapper (the closure produced by the real decorator) from an arbitrary bucket state -- top-up creates no bits and caps at 60 s worth, a write waits exactly (size - level)/FILL or goes at once, exactly one debit per write even when the write raises, frame cost 330 + 10 bits/char -- and of MqttTransport.write_frame (tokens capped, over-budget write dropped not queued, debt slept off, one token per accepted write), over real-valued time and bits; plus the syntactic obligation that PortTransport.write_frame is wrapped; the window bound follows by the telescoping lemma stated in DESIGN.md (paper lemma)",
         note="trusted: pyvc semantics incl. float operations over-approximated by the relative-error bound; perf_counter and asyncio.sleep are contracts (A14: non-decreasing real time, a sleep lasts at least its argument); rely/guarantee across awaits (other callers between a call's check and its debit) only through the paper lemma's 'pending' term; NOT decided: eventual, once-only, in-order delivery; the MIN_INTER_WRITE_GAP semaphore"),
+    "C20": dict(cat="other", ref="DESIGN.md 5/C20",
+        text="partial: for every waiting state class, _wait_for_fut_result -- whatever happened before the wait ends (message arrived, nothing arrived, the state's own timer already fired) -- returns the message and moves on, or raises an error of the binding-error family with the context in DevHasFailedBinding (no longer binding), one transition per wait; put_bind, is_phase (command and packet) and parser_1fc9 agree on the phase and the four phases are mutually exclusive on all 1FC9/10E0 frames: SMT-discharged on the real functions",
+        note="trusted: pyvc semantics; asyncio.wait_for / shield / Future are typestate contracts (CPython >= 3.11 semantics: wait_for cancels the awaited future on timeout); NOT decided: interleavings of duplicated, echoed and third-party frames, the 3 s / 5 s timing, the send-retry states (_DevIsReadyToSendCmd)"),
 }
 
 NA = {
